@@ -312,16 +312,27 @@ def check_estimate(ctx, est, emd):
            % (U(arg) if arg is not None else None, ('; other assignments: %s' % bad) if bad else ''))
     # the returned dataset
     rets = [r for r in walk_shallow(est.node) if isinstance(r, ast.Return)]
+    # self.weights is the optimiser's result: rebound to it, or filled with it in place (`self.weights[:] = ..`: a buffer that stays on the engine)
+    w = [s for s in ast.walk(est.node) if isinstance(s, ast.Assign) and U(s.targets[0]) == 'self.weights']
+    w_inplace = [s for s in ast.walk(est.node) if isinstance(s, ast.Assign) and isinstance(s.targets[0], ast.Subscript)
+                 and U(s.targets[0].value) == 'self.weights' and U(s.targets[0].slice).replace(' ', '') in (':', '...')]
+    persistent = bool(w_inplace) or any(isinstance(s, ast.AugAssign) and U(s.target).startswith('self.weights') for s in ast.walk(est.node))
     for r in rets:
         v = r.value
         ok = isinstance(v, ast.Call) and U(v.func) == 'Dataset' and len(v.args) == 3 and \
-            U(v.args[0]) == 'self.public_data.df' and U(v.args[1]) == 'self.public_data.domain' and U(v.args[2]) == 'self.weights'
+            U(v.args[0]) == 'self.public_data.df' and U(v.args[1]) == 'self.public_data.domain' and \
+            U(v.args[2]).replace(' ', '') in ('self.weights', 'self.weights.copy()', 'np.array(self.weights)', 'np.copy(self.weights)')
         ctx.ob('public-data-unmodified', est, r, ok,
                'must return Dataset(self.public_data.df, self.public_data.domain, self.weights); returns `%s`' % U(v))
-    # self.weights is the optimiser's result
-    w = [s for s in ast.walk(est.node) if isinstance(s, ast.Assign) and U(s.targets[0]) == 'self.weights']
-    ok = len(w) == 1 and w[0].value is c
-    ctx.ob('total-pass-through', est, w[0] if w else est.node, ok, 'self.weights must be exactly the optimiser\'s return value')
+        if ok and persistent:
+            shared = U(v.args[2]).replace(' ', '') == 'self.weights'
+            ctx.ob('public-data-unmodified', est, r, not shared,
+                   'self.weights is a buffer that is overwritten in place by every call (`%s`); the returned dataset %s'
+                   % (U(w_inplace[0])[:50] if w_inplace else 'in-place update', 'gets its own copy' if not shared else
+                      'shares that buffer, so a later estimate() rewrites the weights of datasets returned earlier'),
+                   construct='ownership of the returned weights')
+    ok = (len(w) == 1 and w[0].value is c and not w_inplace) or (len(w_inplace) == 1 and w_inplace[0].value is c and not w)
+    ctx.ob('total-pass-through', est, (w or w_inplace or [est.node])[0], ok, 'self.weights must be exactly the optimiser\'s return value')
 
 
 def check_unmodified(ctx):
